@@ -491,7 +491,7 @@ class Unit:
         forced = label in getattr(self, 'force_external', ()) and body is not None and not vacuity and kv.get('body') != 'external'
         if forced:
             # the body is dropped: binding modes of by-value parameters are irrelevant (the installed Verus rejects `mut self`)
-            sig = re.sub(r'\bmut\s+self\b', 'self', sig)
+            sig = re.sub(r'\(\s*mut\s+self\b', '(self', sig)
             self.emit('    #[verifier::external_body]', dict(kind='tmpl', label=label, section='forced-external'))
         self.emit('    ' + sig.rstrip(), org)
         spec = sections.get('spec')
